@@ -687,7 +687,7 @@ func checkC16(c *Ctx, r *Report) {
 			key := fname(f) + ":upstream-url"
 			okURL := urlFromBuilder(c, cc.Args[2], bt, 4)
 			okMethod := mentionsField(cc.Args[1], "net/http", "Request", "Method", 2)
-			okBody := mentionsField(cc.Args[3], "net/http", "Request", "Body", 3)
+			okBody := inboundBodyOnly(cc.Args[3], 4)
 			if okURL && okMethod && okBody {
 				r.OK("C16-R5", key, in.Pos(), "URL = builder(r, endpoint).String(); method and body are the inbound request's")
 			} else {
@@ -812,6 +812,44 @@ func builderCall(c *Ctx, call *ssa.Call, bt *ssa.Function, depth int) bool {
 			}
 		}
 		return true
+	}
+	return false
+}
+
+
+// inboundBodyOnly: v is the inbound request's Body on every path; an alternative (http.NoBody, nil) is accepted only
+// on an edge taken under a test of that Body itself (r.Body == nil / == http.NoBody) — never under a test of the
+// declared length, which is -1 for chunked uploads.
+func inboundBodyOnly(v ssa.Value, d int) bool {
+	if v == nil || d == 0 {
+		return false
+	}
+	switch x := v.(type) {
+	case *ssa.MakeInterface:
+		return inboundBodyOnly(x.X, d-1)
+	case *ssa.ChangeInterface:
+		return inboundBodyOnly(x.X, d-1)
+	case *ssa.UnOp:
+		return x.Op == token.MUL && isField(x.X, "net/http", "Request", "Body")
+	case *ssa.Phi:
+		for i, e := range x.Edges {
+			if inboundBodyOnly(e, d-1) {
+				continue
+			}
+			ok := false
+			if i < len(x.Block().Preds) {
+				for _, cf := range edgeFacts(x.Block().Preds[i], x.Block()) {
+					if bo, isB := cf.Cond.(*ssa.BinOp); isB && (bo.Op == token.EQL || bo.Op == token.NEQ) &&
+						(mentionsField(bo.X, "net/http", "Request", "Body", 3) || mentionsField(bo.Y, "net/http", "Request", "Body", 3)) {
+						ok = true
+					}
+				}
+			}
+			if !ok {
+				return false
+			}
+		}
+		return len(x.Edges) > 0
 	}
 	return false
 }
